@@ -876,6 +876,15 @@ flatcc_builder_ref_t flatcc_builder_end_buffer(flatcc_builder_t *B, flatcc_build
     flatcc_builder_ref_t buffer_ref;
     flatcc_builder_buffer_flags_t flags;
 
+    /*
+     * A null root is the failure value of the call that built the root
+     * object (generated *_as_root wrappers pass it on unchecked): the
+     * frames of the failed object are still open, so this is not the
+     * buffer frame and nothing must be emitted.
+     */
+    if (root == 0) {
+        return 0;
+    }
     flags = (flatcc_builder_buffer_flags_t)B->buffer_flags & flatcc_builder_with_size;
     flags |= is_top_buffer(B) ? 0 : flatcc_builder_is_nested;
     check(frame(type) == flatcc_builder_buffer, "expected buffer frame");
